@@ -180,6 +180,18 @@ def run(tier):
 
 def replay(path):
     d = json.load(open(path))["replay"]
+    if "ucs_instance" in d:
+        # a message-level run of real UCSReplication objects: the model prefix (if any), then the seeded schedule
+        from .. import ucsmodel as UM
+        w = UM.UcsWorld(d["ucs_instance"])
+        for a in d.get("model_prefix") or []:
+            st = ("replicate", a["a"]) if a["n"] == "replicate" else ("deliver", a["src"], a["a"])
+            if st in w.enabled():
+                w.step(st)
+        w.run_random(random.Random(d["then_seed"] if d.get("model_prefix") is None else d["then_seed"]), 4000)
+        rec = w.outcome(0)
+        print(json.dumps(rec))
+        return 1 if rec["exc"] or len(rec["done"]) != len(rec["agents"]) else 0
     out = one_run(0, d["inst"], d["dep"], d["sched_seed"], d.get("style", 0), d.get("depart", False))
     rec = out[min(d.get("phase", 1), len(out)) - 1][0]
     print(json.dumps(rec))
